@@ -211,6 +211,12 @@ func caseOf(seed int64, plan cpuPlan, i int) cpuCase {
 		}
 		c.regs = regs
 		c.mem = randMem(r, c.memSize)
+		if (i/2)%3 == 2 {
+			// the "quiet" twin: every data register and every memory byte zero, so that stores write the value
+			// memory already holds (a cost that depends on WHETHER a value changes something shows here)
+			c.regs = map[int]int32{}
+			c.mem = make([]int8, c.memSize)
+		}
 		c.family += "-twin"
 		return c
 	}
@@ -602,7 +608,7 @@ func cpuStream(name string, plan cpuPlan) streamFn {
 	}
 }
 
-var allFamilies = []string{"alu", "dep", "dep-mem", "mem", "br", "br-mem", "shadow", "shadow-reg", "tail", "pair", "err", "evict", "jumps", "calls", "loops", "dispatch", "stream", "pingpong"}
+var allFamilies = []string{"alu", "dep", "dep-mem", "mem", "br", "br-mem", "shadow", "shadow-reg", "tail", "pair", "err", "evict", "jumps", "calls", "loops", "dispatch", "stream", "pingpong", "resume"}
 
 func init() {
 	streams["cpuworker"] = func(dir string, seed int64, tier string) {}
@@ -611,13 +617,13 @@ func init() {
 	cached := append([]string{"mvp3"}, pipelined...)
 	all4 := []int{1, 2, 3, 4}
 	streams["cpu-c01"] = cpuStream("cpu-c01", cpuPlan{families: allFamilies, n: 770, pars: all4, repeats: 1})
-	streams["cpu-c03"] = cpuStream("cpu-c03", cpuPlan{families: []string{"shadow", "shadow-reg", "br", "shadow-reg", "br-mem", "shadow", "jumps", "calls"}, n: 720, variants: pipelined, pars: all4, repeats: 1})
+	streams["cpu-c03"] = cpuStream("cpu-c03", cpuPlan{families: []string{"shadow", "shadow-reg", "br", "shadow-reg", "br-mem", "shadow", "jumps", "calls", "resume"}, n: 720, variants: pipelined, pars: all4, repeats: 1})
 	streams["cpu-c04"] = cpuStream("cpu-c04", cpuPlan{families: []string{"dep", "dep-mem", "alu", "dep", "jumps", "loops", "calls"}, n: 720, variants: pipelined, pars: all4, repeats: 1})
 	streams["cpu-c05"] = cpuStream("cpu-c05", cpuPlan{families: []string{"mem", "evict", "dep-mem", "pair", "tail", "evict", "stream"}, n: 600, variants: cached, pars: all4, repeats: 1})
 	streams["cpu-c07"] = cpuStream("cpu-c07", cpuPlan{families: append([]string{"err", "br", "err", "jumps"}, allFamilies...), n: 700, pars: all4, repeats: 1})
 	streams["cpu-c09"] = cpuStream("cpu-c09", cpuPlan{families: []string{"tail", "br-mem", "tail", "dep-mem", "stream"}, n: 720, variants: pipelined, pars: all4, repeats: 1})
 	streams["cpu-c10"] = cpuStream("cpu-c10", cpuPlan{families: []string{"pair", "mem", "pair", "stream"}, n: 600, variants: pipelined, pars: all4, repeats: 1})
-	streams["cpu-c12"] = cpuStream("cpu-c12", cpuPlan{families: []string{"alu", "dep", "dep-mem", "mem", "br", "tail", "pair", "br-mem", "jumps", "pingpong"}, n: 800, pars: all4, repeats: 1, pairs: true})
+	streams["cpu-c12"] = cpuStream("cpu-c12", cpuPlan{families: []string{"alu", "dep", "dep-mem", "mem", "br", "tail", "pair", "br-mem", "jumps", "pingpong", "evict", "stream"}, n: 880, pars: all4, repeats: 1, pairs: true})
 	streams["cpu-c08"] = cpuStream("cpu-c08", cpuPlan{families: []string{"dep", "loops", "calls", "dep-mem", "mem", "br", "loops", "pair", "alu", "shadow-reg", "calls", "jumps", "dispatch"}, n: 364, pars: []int{1, 2, 3}, repeats: 3})
 	streams["cpu-inorder"] = cpuStream("cpu-inorder", cpuPlan{families: allFamilies, n: 1500,
 		variants: []string{"mvp1", "mvp2", "mvp3", "mvp4", "mvp5"}, pars: []int{1}, repeats: 1})
